@@ -56,6 +56,76 @@ struct session
 	}
 };
 
+// UDP ASSOCIATE session: negotiates over TCP, then sends the given datagrams (300 ms apart) from a UDP socket to the relay;
+// a UDP target at 10.0.0.3:4000 counts what it receives.  "target.com" resolves to 10.0.0.3.
+struct named_config : default_config
+{
+	chrono::high_resolution_clock::duration hostname_lookup(asio::ip::address const& req, std::string hostname
+		, std::vector<asio::ip::address>& result, boost::system::error_code& ec) override
+	{
+		if (hostname == "target.com") { result = { asio::ip::make_address_v4("10.0.0.3") }; return chrono::duration_cast<chrono::high_resolution_clock::duration>(chrono::milliseconds(10)); }
+		return default_config::hostname_lookup(req, hostname, result, ec);
+	}
+};
+struct udp_session
+{
+	named_config cfg;
+	simulation sim{cfg};
+	asio::io_context client_ios{sim, asio::ip::make_address_v4("10.0.0.1")};
+	asio::io_context proxy_ios{sim, asio::ip::make_address_v4("10.0.0.2")};
+	asio::io_context server_ios{sim, asio::ip::make_address_v4("10.0.0.3")};
+	socks_server socks{proxy_ios, 1080, 5};
+	asio::ip::tcp::socket ctrl{client_ios};
+	asio::ip::udp::socket udp{client_ios};
+	asio::ip::udp::socket target{server_ios};
+	asio::high_resolution_timer timer{client_ios}, stop_timer{client_ios};
+	std::vector<char> rbuf = std::vector<char>(64), tbuf = std::vector<char>(2000);
+	asio::ip::udp::endpoint tfrom;
+	int target_got = 0; bool threw = false; std::string what;
+	std::vector<std::vector<char>> grams; std::size_t idx = 0;
+	void target_loop() { target.async_receive_from(asio::buffer(tbuf), tfrom, [this](error_code const& ec, std::size_t) { if (ec) return; ++target_got; target_loop(); }); }
+	void send_next()
+	{
+		if (idx >= grams.size()) return;
+		error_code ec;
+		udp.send_to(asio::buffer(grams[idx]), asio::ip::udp::endpoint(asio::ip::make_address_v4("10.0.0.2"), 2048), 0, ec);
+		++idx;
+		timer.expires_after(chrono::milliseconds(300));
+		timer.async_wait([this](error_code const& e) { if (!e) send_next(); });
+	}
+	void run(std::vector<std::vector<char>> g)
+	{
+		grams = std::move(g);
+		target.open(asio::ip::udp::v4()); target.bind(asio::ip::udp::endpoint(asio::ip::address_v4::any(), 4000)); target_loop();
+		udp.open(asio::ip::udp::v4()); udp.bind(asio::ip::udp::endpoint(asio::ip::address_v4::any(), 5000)); udp.non_blocking(true);
+		static const char hs[] = { 5, 1, 0 };
+		static const char req[] = { 5, 3, 0, 1, 0, 0, 0, 0, 0, 0 };
+		ctrl.open(asio::ip::tcp::v4());
+		ctrl.async_connect(asio::ip::tcp::endpoint(asio::ip::make_address_v4("10.0.0.2"), 1080), [this](error_code const& ec) {
+			if (ec) return;
+			asio::async_write(ctrl, asio::buffer(hs, 3), [this](error_code const& ec, std::size_t) {
+				if (ec) return;
+				asio::async_read(ctrl, asio::buffer(rbuf.data(), 2), [this](error_code const& ec, std::size_t) {
+					if (ec) return;
+					asio::async_write(ctrl, asio::buffer(req, 10), [this](error_code const& ec, std::size_t) {
+						if (ec) return;
+						asio::async_read(ctrl, asio::buffer(rbuf.data(), 10), [this](error_code const& ec, std::size_t) { if (!ec) send_next(); });
+					});
+				});
+			});
+		});
+		stop_timer.expires_after(chrono::seconds(8));
+		stop_timer.async_wait([this](error_code const&) { error_code e; ctrl.close(e); udp.close(e); target.close(e); socks.stop(); });
+		try { sim.run(); } catch (std::exception const& e) { threw = true; what = e.what(); }
+	}
+};
+static std::vector<char> gram_name(std::string const& host, int port, std::string const& payload)
+{
+	std::vector<char> g = { 0, 0, 0, 3, char(host.size()) };
+	g.insert(g.end(), host.begin(), host.end()); g.push_back(char(port >> 8)); g.push_back(char(port & 0xff));
+	g.insert(g.end(), payload.begin(), payload.end()); return g;
+}
+
 static std::vector<char> V(std::initializer_list<int> l) { std::vector<char> r; for (int x : l) r.push_back(char(x)); return r; }
 
 int main(int argc, char** argv)
@@ -112,6 +182,31 @@ int main(int argc, char** argv)
 				bad = 1;
 			}
 		}
+	}
+	else if (fn == "socks_on_read_udp" && label.find("C17.bounds") != std::string::npos)
+	{
+		{
+			// a datagram whose header announces a host name of length 0x80 (a negative char)
+			udp_session s;
+			std::vector<char> g = { 0, 0, 0, 3, char(0x80), 'a', 'b', 0, 80, 'x' };
+			s.run({gram_name("target.com", 4000, "one"), g});
+			if (s.threw) { std::fprintf(stderr, "[C17.bounds] UDP datagram with a host-name length byte 0x80: the proxy's handler threw '%s' out of simulation::run(): the length is read as a signed char and std::string(buf, -128) is constructed\n", s.what.c_str()); bad = 1; }
+		}
+		{
+			// a datagram shorter than the header it announces: 00 00 00 03 0a 'a' (6 bytes, name length 10)
+			udp_session s;
+			std::vector<char> g = { 0, 0, 0, 3, 10, 'a' };
+			s.run({gram_name("target.com", 4000, "one"), g});
+			if (s.threw) { std::fprintf(stderr, "[C17.bounds] 6-byte UDP datagram announcing a 10-byte host name: the proxy's handler threw '%s' out of simulation::run(): bytes_transferred - 5 - len - 2 wraps around and a vector of that size is built from the datagram buffer\n", s.what.c_str()); bad = 1; }
+		}
+	}
+	else if (fn == "socks_on_read_udp")
+	{
+		// three datagrams to the same host name: all three must reach the target
+		udp_session s;
+		s.run({gram_name("target.com", 4000, "one"), gram_name("target.com", 4000, "two"), gram_name("target.com", 4000, "three")});
+		if (s.threw) { std::fprintf(stderr, "[C17.udp] handler threw %s\n", s.what.c_str()); bad = 1; }
+		else if (s.target_got != 3) { std::fprintf(stderr, "[C17.udp] 3 datagrams sent through the UDP relay to target.com:4000, the target received %d: after forwarding a datagram to a host name it already knows, the relay does not start another receive\n", s.target_got); bad = 1; }
 	}
 	else return 4;
 	return bad ? 3 : 0;
